@@ -660,3 +660,68 @@ Proof.
 Qed.
 
 End MultiRootP.
+
+(* ---- B'. after fix d23b12f: the marker is computed from the field, every class in dataclass
+   order is regular ------------------------------------------------------------------------------ *)
+Lemma names_inj_ifield : forall (l : list ifield) f g,
+  NoDup (map if_name l) -> In f l -> In g l -> if_name f = if_name g -> f = g.
+Proof.
+  induction l as [|x l IH]; intros f g Hn Hf Hg E; [destruct Hf|].
+  cbn [map] in Hn. inversion Hn as [|? ? Hx Hl]; subst.
+  destruct Hf as [<-|Hf], Hg as [<-|Hg].
+  - reflexivity.
+  - exfalso. apply Hx. rewrite E. now apply in_map.
+  - exfalso. apply Hx. rewrite <- E. now apply in_map.
+  - now apply IH.
+Qed.
+
+Lemma find_name_some (l : list ifield) cf f :
+  find (fun f => pstr_eqb (if_name f) cf) l = Some f -> In f l /\ if_name f = cf.
+Proof. intro H. apply find_some in H as [Hin E]. split; [exact Hin|now apply pstr_eqb_eq]. Qed.
+
+Theorem mk_src_regular name init catch tag :
+  req_then_opt init = true -> NoDup (map if_name init) -> src_regular (mk_src name init catch tag) = true.
+Proof.
+  intros Hr Hn. unfold src_regular, mk_src. cbn [s_init s_catch]. rewrite Hr. cbn [andb].
+  unfold class_marker. destruct catch as [cf|]; [|reflexivity].
+  destruct (find (fun f => pstr_eqb (if_name f) cf) init) as [f0|] eqn:E; [|reflexivity].
+  apply find_name_some in E as [Hin0 E0]. apply forallb_forall. intros f Hf.
+  destruct (pstr_eqb (if_name f) cf) eqn:Ef; [|reflexivity]. apply pstr_eqb_eq in Ef.
+  rewrite (names_inj_ifield init f f0 Hn Hf Hin0 (eq_trans Ef (eq_sym E0))). apply Bool.eqb_reflx.
+Qed.
+
+Lemma mk_src_catch_in name init catch tag cf q :
+  s_catch (mk_src name init catch tag) = Some (cf, q) -> In cf (map if_name (s_init (mk_src name init catch tag))).
+Proof.
+  unfold mk_src, class_marker. cbn [s_catch s_init]. destruct catch as [c0|]; [|discriminate].
+  destruct (find (fun f => pstr_eqb (if_name f) c0) init) as [f0|] eqn:E; [|discriminate].
+  intros [= <- _]. apply find_name_some in E as [Hin E0]. rewrite <- E0. now apply in_map.
+Qed.
+
+Lemma remove_nth_incl {A} (x : A) : forall l n, In x (remove_nth n l) -> In x l.
+Proof.
+  induction l as [|y l IH]; intros n H; [destruct n; destruct H|].
+  destruct n as [|n]; cbn [remove_nth] in H; [now right|]. destruct H as [<-|H]; [now left|right; eauto].
+Qed.
+
+(* a CatchAll field with a default — plain or default_factory, declared anywhere among the
+   defaulted fields — gets the '?' marker and is passed BY KEYWORD: it is no positional argument,
+   and every positional value lands in its own parameter *)
+Theorem gen_defaulted_catch_by_keyword name init cf tag p f :
+  req_then_opt init = true -> NoDup (map if_name init) ->
+  find (fun f => pstr_eqb (if_name f) cf) init = Some f -> if_default f = true ->
+  exists g, v1_generate (mk_src name init (Some cf) tag) init p = GenOk g /\
+            pos_ok (mk_src name init (Some cf) tag) g = true /\
+            d_catch (g_cls g) = Some (cf, true) /\ ~ In cf (g_pos g).
+Proof.
+  intros Hr Hn Ef Hd.
+  destruct (gen_pristine_ok (mk_src name init (Some cf) tag) p (mk_src_catch_in name init (Some cf) tag)) as [g Hg].
+  exists g. split; [exact Hg|]. split.
+  { eapply gen_regular_pos_ok; [now apply mk_src_regular|exact Hg]. }
+  revert Hg. unfold v1_generate, mk_src, class_marker. cbn [s_catch s_init s_name s_tag]. rewrite Ef, Hd.
+  destruct (index_of cf (map if_name init)) as [idx|]; [|discriminate]. intros [= <-]. cbn [g_cls g_pos d_catch].
+  split; [reflexivity|]. intro Hin. apply in_map_iff in Hin as (g' & Eg & Hg').
+  apply filter_In in Hg' as [Hg' Rq]. apply remove_nth_incl in Hg'.
+  apply find_name_some in Ef as [Hf Ef]. 
+  rewrite (names_inj_ifield init g' f Hn Hg' Hf (eq_trans Eg (eq_sym Ef))), Hd in Rq. discriminate.
+Qed.
